@@ -76,17 +76,20 @@ def w_readline0_on_unreadable : Prog :=
 def w_returns_none : Prog :=
   { mode := "wb", bufsize := 0, init := none, ops := [.write (str "a"), .close] }
 
-theorem write_with_unread_rbuffer_witness :
-    agrees w_write_with_unread_rbuffer = some false ∧ tagsOf w_write_with_unread_rbuffer = [.write_with_unread_rbuffer] := by
+/-- repaired in /repo: the program that used to diverge now refines the local file -/
+theorem legacy_write_with_unread_rbuffer_witness :
+    agrees w_write_with_unread_rbuffer = some true ∧ tagsOf w_write_with_unread_rbuffer = [] := by
   decide +kernel
-theorem read_with_unflushed_wbuffer_witness :
-    agrees w_read_with_unflushed_wbuffer = some false ∧ tagsOf w_read_with_unflushed_wbuffer = [.read_with_unflushed_wbuffer] := by
+/-- repaired in /repo: the program that used to diverge now refines the local file -/
+theorem legacy_read_with_unflushed_wbuffer_witness :
+    agrees w_read_with_unflushed_wbuffer = some true ∧ tagsOf w_read_with_unflushed_wbuffer = [] := by
   decide +kernel
 theorem tell_ignores_wbuffer_witness :
     agrees w_tell_ignores_wbuffer = some false ∧ tagsOf w_tell_ignores_wbuffer = [.tell_ignores_wbuffer] := by
   decide +kernel
-theorem truncate_ignores_buffers_witness :
-    agrees w_truncate_ignores_buffers = some false ∧ tagsOf w_truncate_ignores_buffers = [.truncate_ignores_buffers] := by
+/-- repaired in /repo: the program that used to diverge now refines the local file -/
+theorem legacy_truncate_ignores_buffers_witness :
+    agrees w_truncate_ignores_buffers = some true ∧ tagsOf w_truncate_ignores_buffers = [] := by
   decide +kernel
 theorem truncate_not_checked_writable_witness :
     agrees w_truncate_not_checked_writable = some false ∧
@@ -121,11 +124,14 @@ theorem returns_none_witness :
     (pstep ((pyOpen none "wb".toList).get (by decide)) (.write (str "a"))).2 = .pos 1 := by
   decide +kernel
 
-def witnesses : List (String × Prog) :=
+/-- former witnesses of repaired defects (regression programs for the harness) -/
+def legacyWitnesses : List (String × Prog) :=
   [("write_with_unread_rbuffer", w_write_with_unread_rbuffer),
    ("read_with_unflushed_wbuffer", w_read_with_unflushed_wbuffer),
-   ("tell_ignores_wbuffer", w_tell_ignores_wbuffer),
-   ("truncate_ignores_buffers", w_truncate_ignores_buffers),
+   ("truncate_ignores_buffers", w_truncate_ignores_buffers)]
+
+def witnesses : List (String × Prog) :=
+  [("tell_ignores_wbuffer", w_tell_ignores_wbuffer),
    ("truncate_not_checked_writable", w_truncate_not_checked_writable),
    ("truncate_zeroes_file", w_truncate_zeroes_file),
    ("truncate_in_append_mode", w_truncate_in_append_mode),
@@ -160,7 +166,7 @@ structure Rel (f : BF Srv) (p : PF) : Prop where
   rp : f.realpos = f.pos
   bs : 1 ≤ f.bufsize
   unbuf : f.buffered = false → f.wbuf = []
-  dead : f.closed = true → p.content = f.s.content ∧ f.s.hopen = false
+  dead : f.closed = true → p.content = f.s.content ∧ f.s.hopen = false ∧ f.wbuf = []
   hopen : f.closed = false → f.s.hopen = true
   content : f.closed = false → p.content = overlay f.s.content f.pos.toNat f.wbuf
   ppos : f.closed = false → (p.pos : Int) = f.pos + f.wbuf.length
@@ -198,7 +204,7 @@ private theorem step_flush (maxReq : Nat) (hm : 1 ≤ maxReq) (f : BF Srv) (p : 
   have hc : f.closed = false := t_nil ht
   have hpc : p.closed = false := by rw [r.closed, hc]
   obtain ⟨h1, h2, h3, h4, h5, h6, h7, h8, h9⟩ :=
-    flush_sftp_noapp maxReq hm f (by rw [r.rp]; exact r.pos0) r.coh r.app r.sapp
+    flush_sftp_noapp maxReq hm f (by rw [r.rp]; exact r.pos0) r.coh r.app r.sapp r.rbuf
   simp only [StepOK, sstep, pstep, hpc, Bool.false_eq_true, if_false]
   rcases hres : BufFile.flush (sftpOps maxReq) f with ⟨f1, r1⟩
   rw [hres] at h1 h2 h3 h4 h5 h6 h7 h8 h9
@@ -231,18 +237,19 @@ private theorem step_flush (maxReq : Nat) (hm : 1 ≤ maxReq) (f : BF Srv) (p : 
 private theorem rel_after_flush (maxReq : Nat) (hm : 1 ≤ maxReq) (f : BF Srv) (p : PF) (r : Rel f p)
     (hc : f.closed = false) :
     (BufFile.flush (sftpOps maxReq) f).2 = .ok () ∧ Rel (BufFile.flush (sftpOps maxReq) f).1 p ∧
-    (BufFile.flush (sftpOps maxReq) f).1.wbuf = [] ∧ (BufFile.flush (sftpOps maxReq) f).1.closed = false := by
+    (BufFile.flush (sftpOps maxReq) f).1.wbuf = [] ∧ (BufFile.flush (sftpOps maxReq) f).1.closed = false ∧
+    (BufFile.flush (sftpOps maxReq) f).1.s.truncZero = f.s.truncZero := by
   have ht : triggers (sftpOps maxReq) f .flush = [] := by simp [triggers, hc]
   have hs := step_flush maxReq hm f p r ht
   have hpc : p.closed = false := by rw [r.closed, hc]
-  obtain ⟨h1, _, _, _, _, _, _, h8, h9⟩ :=
-    flush_sftp_noapp maxReq hm f (by rw [r.rp]; exact r.pos0) r.coh r.app r.sapp
+  obtain ⟨h1, _, _, _, _, _, h7, h8, h9⟩ :=
+    flush_sftp_noapp maxReq hm f (by rw [r.rp]; exact r.pos0) r.coh r.app r.sapp r.rbuf
   simp only [StepOK, sstep, pstep, hpc, Bool.false_eq_true, if_false] at hs
   rcases hres : BufFile.flush (sftpOps maxReq) f with ⟨f1, r1⟩
-  rw [hres] at h1 h8 h9 hs
-  simp only at h1 h8 h9
+  rw [hres] at h1 h7 h8 h9 hs
+  simp only at h1 h7 h8 h9
   subst h1
-  exact ⟨rfl, hs.1, h8, by rw [h9.2.2.2.2.2.2.2.2.2.2]; exact hc⟩
+  exact ⟨rfl, hs.1, h8, by rw [h9.2.2.2.2.2.2.2.2.2.2]; exact hc, h7.2.2.1⟩
 
 private theorem step_close (maxReq : Nat) (hm : 1 ≤ maxReq) (f : BF Srv) (p : PF) (r : Rel f p) :
     StepOK (sftpOps maxReq) f p .close := by
@@ -256,7 +263,7 @@ private theorem step_close (maxReq : Nat) (hm : 1 ≤ maxReq) (f : BF Srv) (p : 
                    content := fun h => r.content h, ppos := fun h => r.ppos h }
   · have hc' : f.closed = false := by simpa using hc
     rw [if_neg hc]
-    obtain ⟨g1, g2, g3, g4⟩ := rel_after_flush maxReq hm f p r hc'
+    obtain ⟨g1, g2, g3, g4, _⟩ := rel_after_flush maxReq hm f p r hc'
     unfold BufFile.close
     rcases hres : BufFile.flush (sftpOps maxReq) f with ⟨f1, r1⟩
     rw [hres] at g1 g2 g3 g4
@@ -270,46 +277,58 @@ private theorem step_close (maxReq : Nat) (hm : 1 ≤ maxReq) (f : BF Srv) (p : 
       closed := rfl, wr := g2.wr, papp := g2.papp, app := g2.app, sapp := g2.sapp,
       coh := g2.coh, clean := g2.clean, rbuf := g2.rbuf, pos0 := g2.pos0, rp := g2.rp, bs := g2.bs,
       unbuf := g2.unbuf,
-      dead := fun _ => ⟨hcont, rfl⟩,
+      dead := fun _ => ⟨hcont, rfl, g3⟩,
       hopen := fun h => (by cases h),
       content := fun h => (by cases h),
       ppos := fun h => (by cases h) }
 
-private theorem step_truncate (o : Ops Srv) (f : BF Srv) (p : PF) (n : Int) (r : Rel f p)
-    (ht : triggers o f (.truncate n) = []) : StepOK o f p (.truncate n) := by
-  simp only [StepOK, sstep, pstep, SftpFile.truncate]
-  by_cases hc : f.closed = true
-  · -- both raise
-    have hpc : p.closed = true := by rw [r.closed, hc]
-    have hh := (r.dead hc).2
+/-- dropping (empty) read-ahead and re-synchronising `_realpos` leaves a related state related -/
+private theorem rel_norm {f : BF Srv} {p : PF} (r : Rel f p) : Rel { f with rbuf := [], realpos := f.pos } p :=
+  { closed := r.closed, wr := r.wr, papp := r.papp, app := r.app, sapp := r.sapp, coh := r.coh, clean := r.clean,
+    rbuf := rfl, pos0 := r.pos0, rp := rfl, bs := r.bs, unbuf := r.unbuf, dead := r.dead, hopen := r.hopen,
+    content := r.content, ppos := r.ppos }
+
+private theorem rel_wnil {f : BF Srv} {p : PF} (r : Rel f p) (hw : f.wbuf = []) : Rel { f with wbuf := [] } p :=
+  { closed := r.closed, wr := r.wr, papp := r.papp, app := r.app, sapp := r.sapp, coh := r.coh, clean := r.clean,
+    rbuf := r.rbuf, pos0 := r.pos0, rp := r.rp, bs := r.bs, unbuf := fun _ => rfl,
+    dead := fun h => ⟨(r.dead h).1, (r.dead h).2.1, rfl⟩, hopen := r.hopen,
+    content := fun h => (by have := r.content h; rw [hw] at this; exact this),
+    ppos := fun h => (by have := r.ppos h; rw [hw] at this; exact this) }
+
+/-- the FSETSTAT itself, on a flushed state with no read-ahead -/
+private theorem truncate_core (g : BF Srv) (p : PF) (n : Int) (r : Rel g p) (hw : g.wbuf = [])
+    (ht : g.closed = false → (g.wr = true ∧ ¬ (g.s.truncZero = true ∧ n > 0))) :
+    let res : BF Srv × Except Err Unit :=
+      if n < 0 then (g, .error (.stream eStruct))
+      else if !g.s.hopen then (g, .error (.stream eServer))
+      else ({ g with s := srvTruncate g.s n.toNat }, .ok ())
+    Rel (outOf (fun _ => Out.unit) res).1 (pstep p (.truncate n)).1 ∧
+    sameOut (.truncate n) (outOf (fun _ => Out.unit) res).2 (pstep p (.truncate n)).2 = true := by
+  intro res
+  simp only [res, pstep]
+  by_cases hc : g.closed = true
+  · have hpc : p.closed = true := by rw [r.closed, hc]
+    have hh := (r.dead hc).2.1
     simp only [hpc, Bool.true_or, if_true]
     by_cases hn : n < 0
     · simp only [hn, if_true, outOf]; exact ⟨r, sameOut_err _ _⟩
     · simp only [hn, if_false, hh, Bool.not_false, if_true, outOf]; exact ⟨r, sameOut_err _ _⟩
-  · have hc' : f.closed = false := by simpa using hc
+  · have hc' : g.closed = false := by simpa using hc
     have hpc : p.closed = false := by rw [r.closed, hc']
-    simp only [triggers, hc', Bool.not_false, Bool.true_and, List.append_eq_nil_iff] at ht
-    obtain ⟨⟨⟨t1, t2⟩, t3⟩, _⟩ := ht
-    have hwb : f.wbuf = [] := by
-      have := t_nil t1; simp at this; exact this.1
-    have hwr : f.wr = true := by
-      have := t_nil t2; simpa using this
+    obtain ⟨hwr, hz⟩ := ht hc'
     have hpw : p.wr = true := by rw [r.wr, hwr]
-    have hz : ¬ (f.s.truncZero = true ∧ n > 0) := by
-      have := t_nil t3; simp [hwr] at this
-      intro ⟨a, b⟩; exact absurd (this a) (by omega)
     simp only [hpc, hpw, Bool.false_or, Bool.not_true]
     by_cases hn : n < 0
-    · simp only [hn, if_true, outOf, decide_true, Bool.or_true]
+    · simp only [hn, if_true, outOf, decide_true]
       exact ⟨r, sameOut_err _ _⟩
     · have hho := r.hopen hc'
-      simp only [hn, if_false, hho, Bool.not_true, Bool.false_eq_true, outOf, decide_false, Bool.or_false]
+      simp only [hn, if_false, hho, Bool.not_true, Bool.false_eq_true, outOf, decide_false]
       refine ⟨?_, by simp [sameOut, eraseRet, eraseErr]⟩
       have hcont := r.content hc'
-      rw [hwb, overlay_nil] at hcont
-      have hnew : (srvTruncate f.s n.toNat).content = p.content.take n.toNat ++ List.replicate (n.toNat - p.content.length) 0 := by
+      rw [hw, overlay_nil] at hcont
+      have hnew : (srvTruncate g.s n.toNat).content = p.content.take n.toNat ++ List.replicate (n.toNat - p.content.length) 0 := by
         simp only [srvTruncate]
-        by_cases hz' : f.s.truncZero = true
+        by_cases hz' : g.s.truncZero = true
         · have : n.toNat = 0 := by
             have : ¬ n > 0 := fun h => hz ⟨hz', h⟩
             omega
@@ -322,8 +341,31 @@ private theorem step_truncate (o : Ops Srv) (f : BF Srv) (p : PF) (n : Int) (r :
         rbuf := r.rbuf, pos0 := r.pos0, rp := r.rp, bs := r.bs, unbuf := r.unbuf,
         dead := fun h => (by simp [hc'] at h),
         hopen := fun _ => hho,
-        content := fun _ => (by simp only [hwb, overlay_nil]; exact hnew.symm),
+        content := fun _ => (by simp only [hw, overlay_nil]; exact hnew.symm),
         ppos := fun h => r.ppos h }
+
+private theorem step_truncate (maxReq : Nat) (hm : 1 ≤ maxReq) (f : BF Srv) (p : PF) (n : Int) (r : Rel f p)
+    (ht : triggers (sftpOps maxReq) f (.truncate n) = []) : StepOK (sftpOps maxReq) f p (.truncate n) := by
+  simp only [StepOK, sstep, SftpFile.truncate]
+  by_cases hc : f.closed = true
+  · obtain ⟨_, _, hwb⟩ := r.dead hc
+    rw [flush_nil _ f hwb]
+    exact truncate_core _ p n (rel_norm (rel_wnil r hwb)) rfl (fun h => by simp [hc] at h)
+  · have hc' : f.closed = false := by simpa using hc
+    simp only [triggers, hc', Bool.not_false, Bool.true_and, List.append_eq_nil_iff] at ht
+    obtain ⟨⟨t2, t3⟩, _⟩ := ht
+    have hwr : f.wr = true := by
+      have := t_nil t2; simpa using this
+    have hz : ¬ (f.s.truncZero = true ∧ n > 0) := by
+      have := t_nil t3; simp [hwr] at this
+      intro ⟨a, b⟩; exact absurd (this a) (by omega)
+    obtain ⟨g1, g2, g3, g4, g5⟩ := rel_after_flush maxReq hm f p r hc'
+    rcases hres : BufFile.flush (sftpOps maxReq) f with ⟨f1, r1⟩
+    rw [hres] at g1 g2 g3 g4 g5
+    simp only at g1 g2 g3 g4 g5
+    subst g1
+    have hwr1 : f1.wr = true := by rw [← g2.wr, r.wr]; exact hwr
+    exact truncate_core _ p n (rel_norm g2) g3 (fun _ => ⟨hwr1, by rw [g5]; exact hz⟩)
 
 private theorem step_seek (maxReq : Nat) (hm : 1 ≤ maxReq) (f : BF Srv) (p : PF) (off : Int) (wh : Nat)
     (r : Rel f p) (ht : triggers (sftpOps maxReq) f (.seek off wh) = []) :
@@ -332,7 +374,7 @@ private theorem step_seek (maxReq : Nat) (hm : 1 ≤ maxReq) (f : BF Srv) (p : P
   have hc : f.closed = false := t_nil ht.1
   have hpc : p.closed = false := by rw [r.closed, hc]
   have hneg := t_nil ht.2
-  obtain ⟨g1, g2, g3, g4⟩ := rel_after_flush maxReq hm f p r hc
+  obtain ⟨g1, g2, g3, g4, _⟩ := rel_after_flush maxReq hm f p r hc
   simp only [StepOK, sstep, pstep, SftpFile.seek, hpc, Bool.false_eq_true, if_false]
   rcases hres : BufFile.flush (sftpOps maxReq) f with ⟨f1, r1⟩
   rw [hres] at g1 g2 g3 g4 hneg
@@ -390,7 +432,7 @@ private theorem rel_partial_flush (maxReq : Nat) (hm : 1 ≤ maxReq) (f : BF Srv
     (writeAll (sftpOps maxReq) f (f.wbuf.take cut)).2 = .ok () ∧
     Rel { (writeAll (sftpOps maxReq) f (f.wbuf.take cut)).1 with wbuf := f.wbuf.drop cut } p := by
   obtain ⟨h1, h2, h3, h4, _, h6, h7, h8⟩ :=
-    writeAll_sftp_noapp maxReq hm f (f.wbuf.take cut) (by rw [r.rp]; exact r.pos0) r.coh r.app r.sapp
+    writeAll_sftp_noapp maxReq hm f (f.wbuf.take cut) (by rw [r.rp]; exact r.pos0) r.coh r.app r.sapp r.rbuf
   refine ⟨h1, ?_⟩
   obtain ⟨c1, c2, c3, c4, c5, c6, c7, c8, c9, c10, c11⟩ := h8
   obtain ⟨s1, s2, s3, s4, s5⟩ := h7
@@ -473,7 +515,7 @@ private theorem step_write (maxReq : Nat) (hm : 1 ≤ maxReq) (f : BF Srv) (p : 
     · rw [if_neg hl]
       by_cases hfull : (f.wbuf ++ d).length ≥ f.bufsize
       · rw [if_pos hfull]
-        obtain ⟨g1, g2, _, _⟩ := rel_after_flush maxReq hm { f with wbuf := f.wbuf ++ d } (pw p d) r2 hc'
+        obtain ⟨g1, g2, _, _, _⟩ := rel_after_flush maxReq hm { f with wbuf := f.wbuf ++ d } (pw p d) r2 hc'
         rcases hres : BufFile.flush (sftpOps maxReq) { f with wbuf := f.wbuf ++ d } with ⟨f3, r3⟩
         rw [hres] at g1 g2
         simp only at g1 g2
@@ -485,7 +527,7 @@ private theorem step_write (maxReq : Nat) (hm : 1 ≤ maxReq) (f : BF Srv) (p : 
     rw [if_pos (by simp [hb'])]
     have hwb := r.unbuf hb'
     obtain ⟨h1, h2, h3, h4, _, h6, h7, h8⟩ :=
-      writeAll_sftp_noapp maxReq hm f d (by rw [r.rp]; exact r.pos0) r.coh r.app r.sapp
+      writeAll_sftp_noapp maxReq hm f d (by rw [r.rp]; exact r.pos0) r.coh r.app r.sapp r.rbuf
     obtain ⟨c1, c2, c3, c4, c5, c6, c7, c8, c9, c10, c11⟩ := h8
     obtain ⟨s1, s2, s3, s4, s5⟩ := h7
     rcases hres : writeAll (sftpOps maxReq) f d with ⟨f3, r3⟩
@@ -530,7 +572,7 @@ theorem step_refines (maxReq : Nat) (hm : 1 ≤ maxReq) (f : BF Srv) (p : PF) (o
   | seek off wh => exact step_seek maxReq hm f p off wh r ht
   | tell => exact step_tell _ f p r ht
   | flush => exact step_flush maxReq hm f p r ht
-  | truncate n => exact step_truncate _ f p n r ht
+  | truncate n => exact step_truncate maxReq hm f p n r ht
   | close => exact step_close maxReq hm f p r
 
 /-- **Refinement (partial).**  For every request-size limit, every buffer size / buffering mode, every file
